@@ -484,6 +484,10 @@ func entryJobs(thorough, lite bool) []job {
 	add("CORPUS", corpus, "", profCorpus, 3)
 	add("CORPUS", corpus, "R", profCorpus, 3)
 	add("CORPUS", corpus, "G", profCorpus, 3)
+	lim := limFamily()
+	add("LIM", lim, "", profCorpus, 2)
+	add("LIM", lim, "R", profCorpus, 2)
+	add("ALTB", altBranchFamily(false), "", profP0, 3)
 	if thorough {
 		core5 := coreFamily("CORE", grammarCore(), 5)
 		add("CORE<=5", core5, "", profP0, 3)
